@@ -2,6 +2,7 @@ package decoder
 
 import (
 	"context"
+	"errors"
 	"strings"
 
 	"github.com/hashicorp/hcl-lang/lang"
@@ -150,3 +151,26 @@ func verifContains(s, sub string) bool {
 	}
 	return false
 }
+
+// verifFaultyReader: a path reader whose paths can individually fail.
+type verifFaultyReader struct {
+	order []string
+	ctxs  map[string]*PathContext
+	fail  map[string]bool
+}
+
+func (r *verifFaultyReader) Paths(ctx context.Context) []lang.Path {
+	out := make([]lang.Path, 0)
+	for _, p := range r.order {
+		out = append(out, lang.Path{Path: p})
+	}
+	return out
+}
+
+func (r *verifFaultyReader) PathContext(path lang.Path) (*PathContext, error) {
+	if r.fail[path.Path] {
+		return nil, errors.New("unreadable path")
+	}
+	return r.ctxs[path.Path], nil
+}
+
